@@ -876,7 +876,35 @@ class Printer:
                 auto = None
             if auto:
                 self.auto_loops[self.loops] = auto
+        elif cond:
+            # an ITERATOR loop (`for (auto it = c.begin(); it != c.end(); ++it)`, or clang's desugaring of a range-based for): the
+            # iterator that operator++ advances and the condition compares is the loop variable (name only, no auto contract)
+            name = self.find_iterator_counter(cond, parts)
+            if name:
+                self.loop_counters[self.loops] = name
         return f'NV_LOOP_{self.cname}_{self.loops}'
+
+    def find_iterator_counter(self, cond, parts):
+        def callee(x):
+            c = x['inner'][0] if x.get('inner') else {}
+            while isinstance(c, dict) and c.get('kind') in ('ImplicitCastExpr', 'ParenExpr') and c.get('inner'):
+                c = c['inner'][0]
+            return (c.get('referencedDecl') or {}).get('name')
+        advanced = set()
+        for part in parts:
+            for x in astload_walk(part or {}):
+                if x.get('kind') == 'CXXOperatorCallExpr' and callee(x) in ('operator++', 'operator--') and len(x.get('inner', [])) >= 2:
+                    u = unwrap(x['inner'][1])
+                    if u.get('kind') == 'DeclRefExpr':
+                        advanced.add(u['referencedDecl'].get('id'))
+        for x in astload_walk(cond):
+            if x.get('kind') == 'CXXOperatorCallExpr' and callee(x) in ('operator!=', 'operator<') and len(x.get('inner', [])) == 3:
+                for side in x['inner'][1:]:
+                    u = unwrap(side)
+                    if u.get('kind') == 'DeclRefExpr' and u['referencedDecl'].get('id') in advanced and u['referencedDecl'].get('kind') == 'VarDecl':
+                        rid = u['referencedDecl'].get('id')
+                        return self.renamed.get(rid, u['referencedDecl'].get('name'))
+        return None
 
     def auto_loop_contract(self, cond, parts):
         """NV_AUTOLOOP_<c_name>_<k>: the contract of a canonical counting loop whose body writes nothing the contracts model
@@ -1190,6 +1218,9 @@ class Printer:
             if d:
                 s += self.stmt(d, ind + 1)
         mac = self.loop_macro()
+        it = self.find_iterator_counter(cond, (inc,))      # NV_LOOPVAR_<c_name>_<k> = clang's __beginN of this range-based for
+        if it:
+            self.loop_counters[self.loops] = it
         self.loop_scope.append(len(self.scopes))
         s += f'{p}  for (; {self.cond(cond)}; {self.cond(inc)})\n{p}  {mac}\n{p}  {{\n'
         self.scopes.append([])
